@@ -43,7 +43,7 @@ def _apply(op, g, m):
 def _wf(h, top, spec):
     """None or a description of what is ill-formed in graph h"""
     ts = h.triples
-    vs = h.variables()
+    vs = {t[0] for t in ts} | ({h._top} if h._top is not None else set())      # reference model, not h.variables()
     inst = {}
     for s, r, t in ts:
         if r == ':instance':
@@ -51,9 +51,10 @@ def _wf(h, top, spec):
     for s, r, t in ts:
         if inst.get(s, 0) != 1:
             return 'source %r of %r has %d instance triples' % (s, (s, r, t), inst.get(s, 0))
-    if h.top != top:
-        return 'top %r became %r' % (top, h.top)
-    if ts and graphm.weakly_connected_from(ts, h.top, vs) != vs:
+    htop = h._top if h._top is not None else (ts[0][0] if ts else None)
+    if htop != top:
+        return 'top %r became %r' % (top, htop)
+    if ts and graphm.weakly_connected_from(ts, htop, vs) != vs:
         return 'not weakly connected'
     return None
 
@@ -76,6 +77,36 @@ def _build(case, m):
         vs = sorted(g.variables(), key=repr)
         g.top = vs[case['top'] % len(vs)]
         lab += ' top=%r' % g.top
+    if case.get('swap') is not None:
+        # inspect the graph, then replace one attribute (x r c) by an edge to a new node in place: same number of triples,
+        # different variables -- derived state must follow
+        g.variables(); g.edges(); g.attributes(); g.reentrancies()
+        vs = g.variables()
+        attrs = [i for i, t in enumerate(g.triples) if t[1] != ':instance' and t[2] not in vs and t[2] is not None]
+        insts = [i for i, t in enumerate(g.triples) if t[1] == ':instance' and t[0] != g.top and not any(u[2] == t[0] or (u[0] == t[0] and u[1] != ':instance') for u in g.triples)]
+        if case['swap'] % 2 and 'nw' not in vs and not any(t[2] == 'nw' for t in g.triples):
+            # rename one node in place, everywhere: same number of triples, different set of variables
+            from penman.layout import Push
+            v = sorted(vs, key=repr)[case['swap'] % len(vs)]
+            ren = lambda x: 'nw' if x == v else x
+            newt = [(ren(s_), r_, ren(t_) if r_ != ':instance' else t_) for s_, r_, t_ in g.triples]
+            newe = {}
+            for old, new in zip(g.triples, newt):
+                if old in g.epidata:
+                    newe[new] = [Push('nw') if isinstance(e, Push) and e.variable == v else e for e in g.epidata[old]]
+            g.triples[:] = newt
+            g.epidata.clear(); g.epidata.update(newe)
+            if g._top == v:
+                g._top = 'nw'
+            lab += ' renamed %r to nw in place' % (v,)
+        elif attrs and 'nw' not in vs:
+            i = attrs[case['swap'] % len(attrs)]
+            s_, r_, c_ = g.triples[i]
+            old = g.triples[i]
+            g.triples[i] = (s_, r_, 'nw')
+            g.epidata.pop(old, None)
+            g.triples.append(('nw', ':instance', c_))
+            lab += ' swapped %r for a node' % (old,)
     return g, lab
 
 
@@ -249,6 +280,8 @@ def _cases(draw, large=False):
         case['append'] = [[pick(draw, vs), pick(draw, fwd), draw(st.sampled_from(['new', '"n s"', '9'] + vs))]]
     if draw(st.integers(0, 3)) == 0:
         case['top'] = draw(st.integers(0, 8))
+    if draw(st.integers(0, 3)) == 0:
+        case['swap'] = draw(st.integers(0, 8))
     return case
 
 
